@@ -19,7 +19,8 @@ Link to the code
       handler entered for a datagram whose first 22 bytes are not the overlay's prefix;
       Peer handed to the handler is not the carried key;
       Network.verified_by_public_key_bin gained a key that the delivered datagram does not authenticate.
-    Handler entry is observed with sys.setprofile on the code objects of the wrapped functions (no /repo hooks).
+    Handler entry is observed with sys.monitoring local events (fallback sys.setprofile) on the code objects of the wrapped
+    functions (no /repo hooks).
 """
 from __future__ import annotations
 
@@ -81,9 +82,22 @@ def rust():
     return r
 
 
+_SPEC_CACHE: dict = {}
+
+
 def spec_eval(data: bytes):
-    """The specification's triple, evaluated with the Rust primitives only.
+    """The specification's triple, evaluated with the Rust primitives only (memoised per datagram: it is a pure function
+    of the bytes and is asked for the same datagram by generator, oracle, history and replay bookkeeping).
     -> dict(key_field, canon, n, authentic)"""
+    hit = _SPEC_CACHE.get(data)
+    if hit is None:
+        if len(_SPEC_CACHE) > 200000:
+            _SPEC_CACHE.clear()
+        hit = _SPEC_CACHE[data] = _spec_eval(data)
+    return hit
+
+
+def _spec_eval(data: bytes):
     r = rust()
     out = {"key_field": None, "canon": None, "n": None, "authentic": False}
     if len(data) < 25:
@@ -118,54 +132,95 @@ def real_parse(kb: bytes):
 
 # ------------------------------------------------------------------------------------------------ observation
 class Observer:
-    """sys.setprofile hook: records entries of the wrapped handler functions (and, for raw handlers,
-    Network.add_verified_peer) while a datagram is being delivered."""
+    """Records entries of the wrapped handler functions (and Network.add_verified_peer / Peer.add_address) while a datagram
+    is being delivered.  Uses sys.monitoring (PEP 669) with LOCAL events on exactly the target code objects — the callback
+    runs only when one of them starts (PY_START: once per call, also for coroutines; resumes are separate events), so the
+    rest of the program runs at full speed; falls back to sys.setprofile on interpreters without sys.monitoring."""
+
+    TOOL = 4
 
     def __init__(self):
         self.targets = {}        # code object -> label
         self.events = []
         self.active = False
         self.current = None      # the (long-lived) datagram that is being delivered, as a transient copy
-        self.coframes = {}       # id(frame) -> frame of coroutine handlers already entered (a resume is not an entry)
+        self.coframes = {}       # setprofile fallback only: coroutine frames already entered
+        self.started = False
 
     def add(self, code, label):
-        self.targets.setdefault(code, label)
+        if code not in self.targets:
+            self.targets[code] = label
+            if self.started and hasattr(sys, "monitoring"):
+                sys.monitoring.set_local_events(self.TOOL, code, sys.monitoring.events.PY_START)
 
-    def prof(self, frame, event, arg):
+    def record(self, frame, lab):
+        code = frame.f_code
+        names = code.co_varnames[:code.co_argcount]
+        loc = frame.f_locals
+        if lab[0] == "add_address":       # Peer.add_address(self, value): who is touched, by which caller
+            back = frame.f_back
+            self.events.append((lab, (loc.get(names[0]), loc.get(names[1]),
+                                      back.f_code.co_filename.replace("\\", "/") if back else ""), {}, None,
+                                code.co_name))
+            return
+        second = loc.get(names[1]) if len(names) > 1 else None
+        rest = {}
+        for nm in names[2:]:
+            v = loc.get(nm)
+            if isinstance(v, (bytes, bytearray)):
+                # never keep the datagram object alive (transports hand over a fresh object per packet and
+                # free it afterwards); keep what is needed: is it the datagram that was delivered?
+                v = bytes(v) if self.current is None or bytes(v) != self.current else self.current
+            rest[nm] = v
+        self.events.append((lab, second, rest, None, code.co_name))
+
+    def on_start(self, code, _offset):
+        if self.active:
+            lab = self.targets.get(code)
+            if lab is not None:
+                self.record(sys._getframe(1), lab)  # noqa: SLF001
+
+    def prof(self, frame, event, arg):          # fallback
         if event == "call":
             lab = self.targets.get(frame.f_code)
             if lab is not None:
-                code = frame.f_code
-                if code.co_flags & 0x80:          # CO_COROUTINE: 'call' also fires on every resume
+                if frame.f_code.co_flags & 0x80:          # CO_COROUTINE: 'call' also fires on every resume
                     if self.coframes.get(id(frame)) is frame:
                         return
-                    self.coframes[id(frame)] = frame     # remembered even while not recording (prelude deliveries)
-                if not self.active:
-                    return
-                names = code.co_varnames[:code.co_argcount]
-                loc = frame.f_locals
-                if lab[0] == "add_address":       # Peer.add_address(self, value): who is touched, by which caller
-                    back = frame.f_back
-                    self.events.append((lab, (loc.get(names[0]), loc.get(names[1]),
-                                              back.f_code.co_filename.replace("\\", "/") if back else ""), {}, None,
-                                        code.co_name))
-                    return
-                second = loc.get(names[1]) if len(names) > 1 else None
-                rest = {}
-                for nm in names[2:]:
-                    v = loc.get(nm)
-                    if isinstance(v, (bytes, bytearray)):
-                        # never keep the datagram object alive (transports hand over a fresh object per packet and
-                        # free it afterwards); keep what is needed: is it the datagram that was delivered?
-                        v = bytes(v) if self.current is None or bytes(v) != self.current else self.current
-                    rest[nm] = v
-                self.events.append((lab, second, rest, None, code.co_name))
+                    self.coframes[id(frame)] = frame
+                if self.active:
+                    self.record(frame, lab)
 
     def start(self):
-        sys.setprofile(self.prof)
+        if self.started:
+            return
+        self.started = True
+        if hasattr(sys, "monitoring"):
+            mon = sys.monitoring
+            if mon.get_tool(self.TOOL) is not None:
+                mon.free_tool_id(self.TOOL)
+            mon.use_tool_id(self.TOOL, "verif-c01")
+            mon.register_callback(self.TOOL, mon.events.PY_START, self.on_start)
+            for code in self.targets:
+                mon.set_local_events(self.TOOL, code, mon.events.PY_START)
+        else:
+            sys.setprofile(self.prof)
 
     def stop(self):
-        sys.setprofile(None)
+        if not self.started:
+            return
+        self.started = False
+        if hasattr(sys, "monitoring"):
+            mon = sys.monitoring
+            for code in self.targets:
+                try:
+                    mon.set_local_events(self.TOOL, code, 0)
+                except BaseException:
+                    pass
+            mon.register_callback(self.TOOL, mon.events.PY_START, None)
+            mon.free_tool_id(self.TOOL)
+        else:
+            sys.setprofile(None)
 
 
 def peer_key_of(obj):
@@ -647,6 +702,9 @@ def regions(d: bytes, kl: int, n: int):
             "payload": (25 + kl, ln - n), "sig": (ln - n, ln)}
 
 
+LEAN = False      # set per run from the scale: fewer REPETITIONS per operator and message id (never fewer operators / classes)
+
+
 def mutants_of(ctx: Ctx, pk: dict, pool: list, tables_by_name: dict, other_keys: dict, flips: int, every_byte: bool):
     """-> list of (target overlay, data, operator label, position class)"""
     rng = ctx.rng
@@ -673,20 +731,26 @@ def mutants_of(ctx: Ctx, pk: dict, pool: list, tables_by_name: dict, other_keys:
         if every_byte:
             pos = list(range(lo, hi))
         else:
-            pos = sorted({lo, hi - 1} | {rng.randrange(lo, hi) for _ in range(flips)})
+            # lean tiers: one boundary byte and one random byte per position class; the thorough tier: both boundaries + more
+            ends = {rng.choice([lo, hi - 1])} if LEAN else {lo, hi - 1}
+            pos = sorted(ends | {rng.randrange(lo, hi) for _ in range(flips)})
         for i in pos:
             out.append((ov, flip(i, rng.randrange(8)), "bitflip", cls_name))
     # 2. truncation
-    for cut in sorted({1, 2, n - 1, n, n + 1, rng.randrange(1, max(2, len(d) - 22))}):
+    for cut in sorted({1, n, rng.randrange(1, max(2, len(d) - 22))} if LEAN else
+                      {1, 2, n - 1, n, n + 1, rng.randrange(1, max(2, len(d) - 22))}):
         if 0 < cut < len(d):
             out.append((ov, d[:-cut], "truncate", f"cut{'=n' if cut == n else '<n' if cut < n else '>n'}"))
-    for keep in (22, 23, 24, 25, 26, 25 + kl // 2, 25 + kl, 25 + kl + 1):
+    for keep in ((22, rng.choice([23, 24]), rng.choice([25, 26]), 25 + kl // 2, 25 + kl) if LEAN else
+                 (22, 23, 24, 25, 26, 25 + kl // 2, 25 + kl, 25 + kl + 1)):
         if keep < len(d):
             out.append((ov, d[:keep], "truncate", f"keep{keep if keep < 27 else '-key'}"))
     # 3. extension
     out.append((ov, d + b"\x00", "extend", "1"))
-    out.append((ov, d + bytes(rng.randrange(256) for _ in range(rng.randrange(2, 40))), "extend", "rand"))
-    out.append((ov, d + d[-n:], "extend", "dup-sig"))
+    if not LEAN or rng.random() < 0.5:
+        out.append((ov, d + bytes(rng.randrange(256) for _ in range(rng.randrange(2, 40))), "extend", "rand"))
+    if not LEAN or rng.random() < 0.5:
+        out.append((ov, d + d[-n:], "extend", "dup-sig"))
     out.append((ov, d[:-n] + b"\x00" + d[-n:], "extend", "before-sig"))
     # 4. key substitution (signature unchanged)
     apub = bytes(atk.pub().key_to_bin()) if hasattr(atk, "pub") else None
@@ -743,7 +807,7 @@ def mutants_of(ctx: Ctx, pk: dict, pool: list, tables_by_name: dict, other_keys:
         out.append((ov, d[:a] + d[a:b2] + d[a:], "payload-splice", "duplicate"))
     # 8. prefix / msg-id swap, 9. replay into another overlay
     others = [t for name, t in sorted(tables_by_name.items()) if name != ov]
-    for t in rng.sample(others, min(2, len(others))):
+    for t in rng.sample(others, min(1 if LEAN else 2, len(others))):
         out.append((t["overlay"], t["prefix"] + d[22:], "prefix-swap", "to-" + t["overlay"]))
         out.append((t["overlay"], d, "replay-other-overlay", "to-" + t["overlay"]))
     tab = tables_by_name[ov]
@@ -769,7 +833,7 @@ def mutants_of(ctx: Ctx, pk: dict, pool: list, tables_by_name: dict, other_keys:
     out.append((ov, d[:-n], "strip-auth", "sig-only"))
     out.append((ov, d[:23] + d[25 + kl:], "strip-auth", "key-only"))
     # 11. key-length field / non-canonical key encodings
-    for newlen in sorted({0, kl - 1, kl + 1, 0xFFFF, len(d)}):
+    for newlen in sorted({0, kl + 1, 0xFFFF} if LEAN else {0, kl - 1, kl + 1, 0xFFFF, len(d)}):
         if 0 <= newlen <= 0xFFFF:
             out.append((ov, d[:23] + newlen.to_bytes(2, "big") + d[25:], "keylen-field", f"{'<' if newlen < kl else '>'}kl"))
     junk = bytes(rng.randrange(256) for _ in range(rng.randrange(1, 6)))
@@ -1272,11 +1336,24 @@ def auth_required_set(spec):
     return {(o, int(m)) for o, ms in spec["auth_required"].items() for m in ms}
 
 
+def _phase(ctx: Ctx, name: str):
+    """wall-clock per phase, for the evidence (never used for a verdict)"""
+    import time as _t
+    now = _t.time()
+    ph = ctx.extra.setdefault("phase_seconds", {})
+    last = ctx.extra.get("_phase_last")
+    if last:
+        ph[last[0]] = round(ph.get(last[0], 0) + now - last[1], 2)
+    ctx.extra["_phase_last"] = (name, now)
+
+
 async def run_async(ctx: Ctx, use_model: bool, scale: dict):
     from ipv8.messaging.payload_headers import GlobalTimeDistributionPayload
     import ipv8.peerdiscovery.payload as pdp
     import ipv8.messaging.payload as mp
     logging.disable(logging.CRITICAL)
+    global LEAN
+    LEAN = bool(scale.get("lean", False))
     _random.seed(ctx.rng.getrandbits(64))
     tables = _INFO.get("tables") or gen_c01.collect_tables()
     spec = _INFO.get("spec") or gen_c01.load_spec()
@@ -1292,6 +1369,7 @@ async def run_async(ctx: Ctx, use_model: bool, scale: dict):
     obs.start()
     inject = {"obs": obs, "ctx": ctx, "required": required, "seen": {}, "per_id": scale.get("interleave_per_id", 2),
               "busy": False}
+    _phase(ctx, "capture")
     # ---- capture ---------------------------------------------------------------------------------------------
     packets = await capture_all(ctx, tables, scale["capture_rounds"], inject=inject)
     have = {(p["overlay"], p["data"][22]) for p in packets if len(p["data"]) > 22}
@@ -1336,6 +1414,7 @@ async def run_async(ctx: Ctx, use_model: bool, scale: dict):
     # the receivers exist before the mutants are made: some mutants name the receiver's own key
     other_keys["__receiver__"] = {name: bytes(recv.get(name).my_peer.public_key.key_to_bin()) for name in tbn}
 
+    _phase(ctx, "mutants")
     # ---- mutants ---------------------------------------------------------------------------------------------
     cases = []
     for i, p in enumerate(signed):
@@ -1451,6 +1530,7 @@ async def run_async(ctx: Ctx, use_model: bool, scale: dict):
         cases.append({"target": p["overlay"], "data": p["data"], "op": "unsigned-unmodified", "cls": "-",
                       "origin": p["overlay"], "curve": p["curve"], "src": p["src"]})
 
+    _phase(ctx, "passAB")
     # ---- model pass A/B (what the model will ask the crypto) ----------------------------------------------------
     drv = ctx.driver() if use_model else None
     if drv:
@@ -1470,6 +1550,7 @@ async def run_async(ctx: Ctx, use_model: bool, scale: dict):
                 c["m_verify"] = False
             c["m_rem"] = rem
 
+    _phase(ctx, "deliveries")
     # ---- deliveries + oracle ---------------------------------------------------------------------------------
     obs.start()
     keys_seen = {}
@@ -1669,6 +1750,7 @@ async def run_async(ctx: Ctx, use_model: bool, scale: dict):
     finally:
         obs.stop()
 
+    _phase(ctx, "primitives")
     # ---- the hand-written primitives against the real thing, exhaustively in a small scope + random ----------------------
     if drv:
         primitives_phase(ctx, drv, scale)
@@ -1677,6 +1759,7 @@ async def run_async(ctx: Ctx, use_model: bool, scale: dict):
     if drv and any(c.get("hist") for c in cases):
         await history_phase(ctx, drv, [c for c in cases if c.get("hist")], tbn)
 
+    _phase(ctx, "passC")
     # ---- model pass C and comparison ----------------------------------------------------------------------------
     if drv:
         replies = drv.batch(lines)
@@ -1712,6 +1795,7 @@ async def run_async(ctx: Ctx, use_model: bool, scale: dict):
                              {"overlay": c["target"], "data": c["data"].hex(), "src": list(c["src"]), "operator": c["op"],
                               "position": c["cls"], "line": ln[:200], "model": rep[:200], "implementation": impl})
 
+    _phase(ctx, "late")
     # ---- later effects: maintenance strategies run on what the handlers left behind -------------------------------
     # (routing tables, introduction caches …): nothing they do may create a verified-peer entry for a key that no
     # delivered datagram authenticated
@@ -1742,6 +1826,7 @@ async def run_async(ctx: Ctx, use_model: bool, scale: dict):
     if hyp["wellsized_violations"] or hyp["canon_violations"] or hyp["netok_violations"]:
         ctx.disagree(f"a hypothesis of the theorems does not hold on the real crypto/network: {hyp}", {"hypotheses": hyp})
 
+    _phase(ctx, "pack")
     # ---- sender side: Gen.ezrPack vs ezr_pack -----------------------------------------------------------------
     if drv:
         from ipv8.messaging.anonymization.payload import DestroyPayload
@@ -1789,16 +1874,16 @@ async def run_async(ctx: Ctx, use_model: bool, scale: dict):
 
 
 SCALES = {
-    "quick": {"capture_rounds": 1, "per_pair": 1, "flips": 1, "every_byte_upto": 0, "every_byte_stride": 1,
+    "quick": {"lean": True, "capture_rounds": 1, "per_pair": 1, "flips": 1, "every_byte_upto": 0, "every_byte_stride": 1,
               "unsigned_samples": 40, "pack_cases": 20, "identity_stride": 2},
     "thorough": {"capture_rounds": 3, "per_pair": 1, "flips": 8, "every_byte_upto": 1500, "every_byte_stride": 4,
                  "unsigned_samples": 300, "pack_cases": 300, "identity_stride": 1},
     # the widened search after a broken obligation is bounded (a failing quick run must end within ~3 min): one more
     # capture round with other random choices, not a bigger one
-    "search": {"capture_rounds": 1, "per_pair": 1, "flips": 3, "every_byte_upto": 0, "every_byte_stride": 1,
+    "search": {"lean": True, "capture_rounds": 1, "per_pair": 1, "flips": 3, "every_byte_upto": 0, "every_byte_stride": 1,
                "unsigned_samples": 40, "pack_cases": 0, "identity_stride": 2, "base_stride": 2},
     # the same implementation-only run in a child interpreter started with -O (assert statements compiled away)
-    "child": {"history_steps": 0, "capture_rounds": 1, "per_pair": 1, "flips": 1, "every_byte_upto": 0, "every_byte_stride": 1,
+    "child": {"lean": True, "history_steps": 0, "capture_rounds": 1, "per_pair": 1, "flips": 1, "every_byte_upto": 0, "every_byte_stride": 1,
               "unsigned_samples": 10, "pack_cases": 0, "identity_stride": 8, "base_stride": 6, "pair_stride": 4},
 }
 
@@ -1816,7 +1901,10 @@ def run(ctx: Ctx):
             raise
     asyncio.run(run_async(ctx, ctx.model_ok, SCALES[ctx.tier]))
     # configuration dimension: the same receive path under `python -O` / PYTHONOPTIMIZE (no assert statements)
+    _phase(ctx, "child-O")
     run_in_child(ctx, "-O")
+    _phase(ctx, "end")
+    ctx.extra.pop("_phase_last", None)
 
 
 def run_in_child(ctx: Ctx, flags: str, replay_file: dict | None = None):
